@@ -1,6 +1,8 @@
 """Per-property claim texts for MANIFEST.json."""
 HOOK_COMMITS = []
 ENGINES = [
+    {"name": "packmc", "path": "harness/src/bin/packmc.rs", "serves_properties": ["C10", "C11"],
+     "kind_free_text": "exhaustive enumeration of packagings (creator modes, all concat orders, nested concat, partial concat, decoys, prefixes) and of unavailable-pack subsets x ways, full logical dump compared with the reference model"},
     {"name": "faultmc", "path": "harness/src/bin/faultmc.rs", "serves_properties": ["C04", "C05", "C06"],
      "kind_free_text": "exhaustive byte-level fault enumeration (every position x masks, ranges, truncations, garbage) on reference containers, each case run by the real reader in an isolated worker process; oracles: integrity checks (C04), node-by-node dump comparison (C05), termination without panic/abort/signal (C06)"},
     {"name": "seqmc", "path": "harness/src/bin/seqmc.rs", "serves_properties": ["C01", "C16"],
@@ -10,6 +12,20 @@ ENGINES = [
 ]
 NOT_YET = {}
 CLAIMS = {
+    "C10": {
+        "engine": "packmc c10",
+        "technique": "exhaustive enumeration of a finite configuration space (packagings x orders x prefixes) with a reference-model oracle",
+        "text": "Each logical container x compression is created as OneFile/TwoFiles/NoConcat, re-assembled by tools::concat in every input order, concatenated twice, partially (content found through its recorded location), with a decoy at the recorded location (the inner pack must win), and embedded after prefixes of boundary lengths x 5 kinds; the full logical dump through reader::Container must equal the reference model for every packaging.",
+        "design_ref": "DESIGN.md §4 C10",
+        "note": "Finite set of logical containers; prefixes that are themselves valid pack headers are not enumerated.",
+    },
+    "C11": {
+        "engine": "packmc c11",
+        "technique": "exhaustive fault enumeration: every subset of content packs x every unavailability mode (full product)",
+        "text": "n in {1,2,3} content packs in separate files (BasicCreator extras and low-level creators): every assignment of {available, removed, directory, different valid pack} to the packs: container opens, entries equal the model, available contents read, unavailable ones yield MISSING with the recorded uuid/id/location, check() is Ok(true), unknown pack id answers none.",
+        "design_ref": "DESIGN.md §4 C11",
+        "note": "Only content packs are made unavailable (as the property states).",
+    },
     "C04": {
         "engine": "faultmc c04",
         "technique": "exhaustive fault enumeration over every checksummed byte position x masks, real reader as subject",
